@@ -710,13 +710,17 @@ Definition kt_for (a : args) (t : tree) : option string :=
   | None => a_kt a
   end.
 
-Definition feat_view10 (k : fkind) (a : args) (kt : string) (imgs : list string) (F : folder)
+Definition str_or_empty (o : option string) : string := match o with Some s => s | None => EmptyString end.
+
+(* kt: the keypoints type known when the folder is looked at (descriptors need one) *)
+Definition feat_view10 (k : fkind) (a : args) (kt : option string) (imgs : list string) (F : folder)
   : option (list (string * list string * list (string * content))) :=
   match lookup (descname k) F with
   | Some (Txt segs) =>
+    if (match k with DS => is_none kt | _ => false end) then None else
     match read_old segs with
     | inl d => match resolve_type (explicit k a) (d_name d) with
-               | Some ty => Some [(ty, new_row k d kt a, data_of imgs EmptyString (fext k) F)]
+               | Some ty => Some [(ty, new_row k d (str_or_empty kt) a, data_of imgs EmptyString (fext k) F)]
                | None => None
                end
     | inr _ => None
@@ -736,8 +740,6 @@ Definition obs_view10 (ty : string) (kpims : list string) (rs : list (list strin
                              end) (sortZ m))
   end.
 
-Definition str_or_empty (o : option string) : string := match o with Some s => s | None => EmptyString end.
-
 Definition load10 (a : args) (t : tree) : option view :=
   let top := t_top t in
   match lookup sensors_file top with
@@ -745,12 +747,9 @@ Definition load10 (a : args) (t : tree) : option view :=
     if negb (version_ok_lenient (version_of_file ssegs)) then None else
     let imgs := images_of top in
     let kt := kt_for a t in
-    match opt_folder_view (t_kp t) imgs (feat_view10 KP a EmptyString),
-          opt_folder_view (t_ds t) imgs (fun im F => match lookup (descname DS) F, kt with
-                                                     | Some (Txt _), None => None
-                                                     | _, _ => feat_view10 DS a (str_or_empty kt) im F
-                                                     end),
-          opt_folder_view (t_gf t) imgs (feat_view10 GF a EmptyString),
+    match opt_folder_view (t_kp t) imgs (feat_view10 KP a (a_kt a)),
+          opt_folder_view (t_ds t) imgs (feat_view10 DS a kt),
+          opt_folder_view (t_gf t) imgs (feat_view10 GF a kt),
           opt_folder_view (t_mt t) imgs (fun im F => match kt with Some ty => Some (mt_view10 ty im F) | None => None end) with
     | Some kpv, Some dsv, Some gfv, Some mtv =>
       match lookup obs_file top with
@@ -873,6 +872,10 @@ Definition check_case (c : case) : bool :=
   (match upgrade_inplace (i_args c) (i_tree c) with
    | Done st => match o_in_outcome c with
                 | ODone => tree_eqv (fst st) (o_in_tree c) && oview_eqv (load11 (fst st)) (o_in_view c)
+                           && match load10 (i_args c) (i_tree c) with      (* the specification side agrees too *)
+                              | Some v => oview_eqv (Some v) (o_in_view c)
+                              | None => true
+                              end
                 | _ => false
                 end
    | Failed f st => fail_matches f (o_in_outcome c) && tree_eqv (fst st) (o_in_tree c)
